@@ -56,7 +56,9 @@ class StreamWrapper(IOBase):
             starting_position = self.end_of_file
         
         new_position = starting_position + offset
-        if new_position > self.end_of_file:
+        # a size <= 0 (or None) means "not clipped" in read(); do not clamp to it here either
+        bounded = self.end_of_file is not None and self.end_of_file > 0
+        if bounded and new_position > self.end_of_file:
             new_position = self.end_of_file
         elif new_position < 0:
             new_position = 0
